@@ -85,7 +85,7 @@ def pos_le(a1, a2, b1, b2):
 
 
 # ================================================================================================ _get_key
-@REG.contract("dpapi_ng._client.KeyCache._get_key", props=["C10", "C02"])
+@REG.contract("dpapi_ng._client.KeyCache._get_key", props=["C10", "C02", "C05"])
 def get_key(c):
     I = c.I
     if not c.verifying:
@@ -95,6 +95,7 @@ def get_key(c):
         cache = c.param("self")
         c.raises("ValueError", when=None)
         c.raises("NotImplementedError", when=None)
+        c.ghost_bound("kdf_calls", 2)
         if c.ctx.branch(z3.Bool("getkey_miss!%d" % len(c.ctx.taken))):
             c.effect(lambda: c.ctx.event("cache_get", cache=cache, sd=sd, rkid=g, l0=l0, l1=l1, l2=l2, result=None))
             c.returns(None)
@@ -114,6 +115,7 @@ def get_key(c):
     c.raises("ValueError", when=None)  # L0 beyond the signed 32-bit range of the KDF context
     c.raises("NotImplementedError", when=None)  # root key with an unsupported hash
     c.raises_only({"ValueError", "NotImplementedError"})
+    c.ghost_bound("kdf_calls", 2)  # C05: the L1 seed from a loaded root key costs two KDF calls, a cache hit none
     seeds, roots = cache.fields["_seed_keys"], cache.fields["_root_keys"]
     key = (g, sd, l0)
 
